@@ -64,9 +64,13 @@ func Quote(s string, style string) (string, error) {
 		}
 		return s, nil
 	case "dq":
+		// the grammar ends a double-quoted literal at the first '"', escaped or not
+		if strings.Contains(s, `"`) {
+			return "", fmt.Errorf("not expressible as a double-quoted string")
+		}
 		return strconv.Quote(s), nil
 	default: // auto
-		if ptrLitRe.MatchString(s) && s != "" {
+		if (ptrLitRe.MatchString(s) && s != "") || strings.Contains(s, `"`) {
 			return Quote(s, "raw")
 		}
 		return strconv.Quote(s), nil
